@@ -134,11 +134,15 @@ def classify(fail):
     trees = fail.get('trees', [])
     if fail['what'] == 'values-differ':
         vals = set(fail.get('values', []))
-        # D22: `..` on the document node answers the empty node-set, `parent::node()` panics
-        has_dd = any(s == ('dotdot',) for t in trees for s in steps_of(t))
-        has_pn = any(s[0] == 'step' and s[1] == ('full', 'parent') for t in trees for s in steps_of(t))
-        if has_dd and has_pn and 'panic' in vals and len(vals) == 2:
-            return 'D22'
+        # D22: the parent axis applied to the document node panics (parent_node().unwrap()); `..` answers the
+        # empty node-set there, and another evaluation order (// versus descendant-or-self::node()) may meet
+        # a different error first.  Narrow: exactly two outcomes, one of them `panic`, and the spelling that
+        # panics has an explicit parent:: step.
+        pv = list(zip(trees, [fail.get('value'), fail.get('value2')]))
+        if 'panic' in vals and len(vals) == 2:
+            for t, v in pv:
+                if v == 'panic' and any(s[0] == 'step' and s[1] == ('full', 'parent') for s in steps_of(t)):
+                    return 'D22'
         # D29: a predicate that is a non-integral number literal
         def nonint(t):
             for x in subtrees(t):
